@@ -72,6 +72,7 @@ def rules(ctx, P, L, exc, suffix=''):
     ctx.rule('C06.12', 'same bytes as the synchronous call: where the synchronous entry derives the payload length from the text (strlen) instead of the caller\'s data_size, the threaded entry that queues the same call does so too before it copies the payload into the queue')
     ctx.rule('C06.13', 'all the bits of a sample block are queued: the byte length jls_twr_fsr hands to the queue equals ceil(sample count x entry size / 8) for every accepted entry size and every count residue (set-of-constants evaluation of the length at the send)')
     ctx.rule('C06.14', 'no samples without a size: jls_twr_fsr reaches its send only with a non-zero cached entry size (evaluated with the size bound to 0: no path may reach msg_send) - a signal that was not defined through this writer has size 0, and a message that announces N samples with an empty payload makes the writer thread copy N samples from whatever follows it in the queue')
+    ctx.rule('C06.15', 'same order as the synchronous writer: every call that changes what later data means travels through the queue - outside the consumer, the open and the close, the threaded writer calls the synchronous writer directly only for the two definition requests (confirmed by reading: a definition must exist before data for it is queued, and it touches no state of queued messages); a setting applied directly overtakes the data queued before it')
     ctx.rule('C06.9', 'flush tickets: flush_send_id is stored only under the message lock, flush_processed_id only under the process lock (or before the thread starts)')
 
     fns = P.fns_in(TW)
@@ -427,6 +428,7 @@ def rules(ctx, P, L, exc, suffix=''):
     size_agreement(ctx, P, 'C06.12')
     sample_bytes_rule(ctx, P, 'C06.13')
     undefined_size_rule(ctx, P, 'C06.14')
+    direct_calls_rule(ctx, P, 'C06.15')
 
 
 def size_agreement(ctx, P, rule):
@@ -565,3 +567,34 @@ def undefined_size_rule(ctx, P, rule):
         ctx.ob(rule, not reached, fn.name, '%s() with an unknown entry size' % sd.callee, sd.where(),
                'not reachable when the cached entry size is 0' if not reached else
                'with the cached entry size 0 (signal not defined through this writer) the call is accepted and a message of %s payload bytes that announces the caller\'s sample count is queued' % sorted(reached, key=str))
+
+
+def direct_calls_rule(ctx, P, rule='C06.15'):
+    """who may call the synchronous writer from the threaded writer"""
+    F = 'src/threaded_writer.c'
+    ALLOWED_DIRECT = {
+        'jls_wr_source_def': 'definitions take effect before data for them can be queued',
+        'jls_wr_signal_def': 'definitions take effect before data for them can be queued',
+    }
+    # the consumer: the function whose dispatch switch handles the message kinds; open / close own the writer object
+    consumers = set()
+    for fn in P.fns_in(F):
+        if any(b.term and b.term.get('kind') == 'SwitchStmt' and any(nd.get('op') == 'member' and nd.get('field') == 'msg_type' for nd in walk(b.cond or {})) for b in fn.blocks.values()):
+            consumers.add(fn.name)
+    if not consumers:
+        raise AnalysisBroken('threaded writer: consumer (dispatch on msg_type) not found')
+    owners = set(fn.name for fn in P.fns_in(F) if any(c.callee in ('jls_wr_open', 'jls_wr_close') for c in fn.calls()))
+    n = 0
+    for fn in P.fns_in(F):
+        if fn.name in consumers or fn.name in owners:
+            continue
+        for c in fn.calls():
+            if not (c.callee or '').startswith('jls_wr_'):
+                continue
+            n += 1
+            ctx.saw(fn, 1)
+            ok = c.callee in ALLOWED_DIRECT
+            ctx.ob(rule, ok, fn.name, 'direct call of %s' % c.callee, c.where(),
+                   ALLOWED_DIRECT.get(c.callee, '') if ok else
+                   '%s is applied at once instead of being queued: it takes effect before the data messages that were submitted earlier and are still in the queue, so the file differs from what the same calls give with the synchronous writer' % c.callee)
+    ctx.floor('direct calls into the synchronous writer outside consumer / open / close', n, 2)
